@@ -3,6 +3,7 @@ package main
 import (
 	"encoding/json"
 	"fmt"
+	"strings"
 
 	stackage "github.com/JesseCoretta/go-stackage"
 )
@@ -23,9 +24,14 @@ type c15Case struct {
 	SrcMtx  bool   `json:"src_mutex,omitempty"`
 	DstMtx  bool   `json:"dst_mutex,omitempty"`
 	Deco    bool   `json:"decorated,omitempty"` // presentation settings, identifiers, an earlier error on both sides
+	// Variant: "" | "dst-no-nesting" | "dst-push-policy" (the destination refuses strings ending in "1")
+	Variant string `json:"variant,omitempty"`
+	// SrcMixed: the source's odd positions hold a Stack, a Stack alias, a pointer to an alias, a Condition
+	SrcMixed bool `json:"src_mixed,omitempty"`
 }
 
-var c15Forms = []string{"native", "alias", "ptr-alias", "ptr-native", "aliasS", "read-only", "zero", "freed", "nil", "int", "string", "condition", "nil-ptr-alias", "nil-ptr-native", "zero-alias"}
+var c15Forms = []string{"native", "alias", "ptr-alias", "ptr-native", "aliasS", "read-only", "zero", "freed", "nil", "int", "string", "condition", "nil-ptr-alias", "nil-ptr-native", "zero-alias",
+	"nil-pp-native", "nil-pp-alias", "nil-ppp-native", "ptr-to-nil-ptr", "pp-native", "pp-alias"}
 
 func c15Run(c *Ctx, cs c15Case, count bool) {
 	var src stackage.Stack
@@ -38,6 +44,15 @@ func c15Run(c *Ctx, cs c15Case, count bool) {
 		src.SetFIFO(true)
 	}
 	srcVals := patternValues(cs.SrcLen, cs.SrcMask, "s")
+	if cs.SrcMixed {
+		pa := StackAlias(stackage.And().Push("pa"))
+		mixed := []any{stackage.Or().Push("in"), StackAlias(stackage.And().Push("al")), &pa, stackage.Cond("k", stackage.Eq, "v")}
+		for i := 1; i < len(srcVals); i += 2 {
+			if srcVals[i] != nil {
+				srcVals[i] = mixed[(i/2+cs.SrcLen)%len(mixed)]
+			}
+		}
+	}
 	src.Push(srcVals...)
 	var dstNative stackage.Stack
 	if cs.DstCap > 0 {
@@ -49,6 +64,17 @@ func c15Run(c *Ctx, cs c15Case, count bool) {
 	dstNative.Push(dstVals...)
 	if dstNative.Len() != cs.DstLen || src.Len() != cs.SrcLen {
 		return // not constructible (capacity smaller than requested length)
+	}
+	switch cs.Variant {
+	case "dst-no-nesting":
+		dstNative.SetNoNesting(true)
+	case "dst-push-policy":
+		dstNative.SetPushPolicy(func(x ...any) error {
+			if s, ok := x[0].(string); ok && strings.HasSuffix(s, "1") {
+				return fmt.Errorf("refused")
+			}
+			return nil
+		})
 	}
 	if cs.Deco {
 		decorate(src).SetErr(errCat).SetNegativeIndices(true).SetForwardIndices(true)
@@ -62,6 +88,7 @@ func c15Run(c *Ctx, cs c15Case, count bool) {
 	}
 	var dst any
 	usable := true // destination is a usable Stack
+	maybe := false // the statement does not say whether this form is usable
 	switch cs.DstForm {
 	case "native":
 		dst = dstNative
@@ -99,6 +126,24 @@ func c15Run(c *Ctx, cs c15Case, count bool) {
 		dst, usable = (*StackAlias)(nil), false
 	case "nil-ptr-native":
 		dst, usable = (*stackage.Stack)(nil), false
+	case "nil-pp-native":
+		dst, usable = (**stackage.Stack)(nil), false
+	case "nil-pp-alias":
+		dst, usable = (**StackAlias)(nil), false
+	case "nil-ppp-native":
+		dst, usable = (***stackage.Stack)(nil), false
+	case "ptr-to-nil-ptr":
+		var p *stackage.Stack
+		dst, usable = &p, false
+	case "pp-native": // a pointer to a pointer to a live Stack: the statement lists "pointer" only, so
+		// either answer is accepted, but a true answer must be backed by the content (maybeUsable)
+		a := dstNative
+		pa := &a
+		dst, maybe = &pa, true
+	case "pp-alias":
+		a := StackAlias(dstNative)
+		pa := &a
+		dst, maybe = &pa, true
 	}
 	srcBefore, dstBefore := dumpKey(src), dumpKey(dstNative)
 	var got bool
@@ -126,10 +171,32 @@ func c15Run(c *Ctx, cs c15Case, count bool) {
 	}
 	fits := free < 0 || free >= cs.SrcLen
 	want := usable && fits
+	refusedElem := false
+	for _, v := range srcVals {
+		if sv, ok := v.(string); ok && cs.Variant == "dst-push-policy" && strings.HasSuffix(sv, "1") {
+			refusedElem = true
+		}
+		if cs.Variant == "dst-no-nesting" && isStackLike(v) {
+			refusedElem = true
+		}
+	}
 	if srcAfter := dumpKey(src); srcAfter != srcBefore {
 		c.Violation("source-changed", fmt.Sprintf("source changed by Transfer in %s:\n before %s\n after  %s", jsonString(cs), srcBefore, srcAfter), cs, cs.SrcLen+cs.DstLen)
 	}
 	dstAfter := dumpKey(dstNative)
+	if want && (refusedElem || (maybe && !got)) {
+		// the destination itself turns away one of the source's elements (or the statement is silent
+		// about the form and the call declined): the statement only requires that true is never
+		// reported for an incomplete copy
+		if got {
+			c.Violation("true-although-element-refused:"+cs.Variant, fmt.Sprintf("Transfer returned true although the destination refused an element (it holds %s): %s", showList(contents(dstNative)), jsonString(cs)), cs, cs.SrcLen+cs.DstLen)
+		}
+		c.Outcome(fmt.Sprintf("refused-element/%s/%s/%v", cs.DstForm, cs.Variant, got))
+		if count {
+			c.Nontrivial(jsonString(cs))
+		}
+		return
+	}
 	if !want {
 		if got {
 			c.Violation("true-on-failure:"+cs.DstForm+fitTag(fits), fmt.Sprintf("Transfer returned true although it cannot succeed: %s", jsonString(cs)), cs, cs.SrcLen+cs.DstLen)
@@ -186,9 +253,20 @@ func c15Cases(c *Ctx) []c15Case {
 										if form != "native" && (dm != (1<<dl)-1) {
 											continue // nil patterns of the destination only with the native form
 										}
-										out = append(out, c15Case{sl, sm, sf, sc, "LIST", dl, dm, dc, form, "AND", false, false, false})
+										out = append(out, c15Case{sl, sm, sf, sc, "LIST", dl, dm, dc, form, "AND", false, false, false, "", false})
+										if dm == (1<<dl)-1 && (form == "native" || form == "ptr-alias" || form == "read-only") {
+											for _, v := range []string{"dst-no-nesting", "dst-push-policy"} {
+												for _, mixed := range []bool{false, true} {
+													x := c15Case{sl, sm, sf, sc, "LIST", dl, dm, dc, form, "AND", false, false, false, "", false}
+													x.Variant, x.SrcMixed = v, mixed
+													out = append(out, x)
+												}
+											}
+											x := c15Case{sl, sm, sf, sc, "LIST", dl, dm, dc, form, "AND", false, false, false, "", true}
+											out = append(out, x)
+										}
 										if dm == (1<<dl)-1 && sm == (1<<sl)-1 && (form == "native" || form == "alias" || form == "read-only" || form == "int") {
-											out = append(out, c15Case{sl, sm, sf, sc, "LIST", dl, dm, dc, form, "AND", true, true, false}, c15Case{sl, sm, sf, sc, "LIST", dl, dm, dc, form, "AND", true, false, false}, c15Case{sl, sm, sf, sc, "LIST", dl, dm, dc, form, "AND", false, true, true})
+											out = append(out, c15Case{sl, sm, sf, sc, "LIST", dl, dm, dc, form, "AND", true, true, false, "", false}, c15Case{sl, sm, sf, sc, "LIST", dl, dm, dc, form, "AND", true, false, false, "", false}, c15Case{sl, sm, sf, sc, "LIST", dl, dm, dc, form, "AND", false, true, true, "", false})
 										}
 									}
 								}
@@ -212,7 +290,7 @@ func init() {
 	register(&Check{ID: "C15", Engine: "B", Run: func(c *Ctx) {
 		installLockModel()
 		cases := c15Cases(c)
-		c.Rule = "complete product of source (length, nil pattern, LIFO/FIFO, capacity) x destination (length, nil pattern, capacity none..max) x destination form; non-trivial = distinct cases with a usable destination and either a non-empty source that fits or a capacity refusal"
+		c.Rule = "complete product of source (length, nil pattern, LIFO/FIFO, capacity) x destination (length, nil pattern, capacity none..max) x destination form (incl. nil and live pointers to pointers), plus destinations that refuse elements themselves (no-nesting, push policy) and sources holding Stacks, aliases and Conditions; non-trivial = distinct cases with a usable destination and either a non-empty source that fits or a capacity refusal"
 		parallelFor(len(cases), func(i int) { c15Run(c, cases[i], true) })
 		c.States.Store(int64(len(cases)))
 		c.Exhaustive = true
